@@ -3,12 +3,13 @@
 
 odak.raytracing.intersect_parametric (secant iteration): ONE pass of its loop executed symbolically (ParametricCut)
    g_sec_next/d0/e0/e1     the state after the pass: distances and errors (e1 = what the surface function answered)
+   g_sec_ret               the value that would be returned as the distance after the pass
    g_sec_count             the counter after the pass
-   g_sec_guard             the `while` condition            (`or` rewritten to a symbolic or)
+   g_sec_continue          the `while` condition evaluated on the state AFTER the pass (head-tested or flag-controlled alike)
    g_sec_stop              the disjunction of the conditions of the `if ...: return False, False` statements inside the loop
                            (as a function of the counter BEFORE the pass)
    g_kernel_point_k        the point at which the surface function was asked (so: which distance goes into the kernel)
-   g_sec2_*, g_sec_guard2, g_kernel_point2_* the same for a batch of two rays
+   g_sec2_*, g_sec_continue2, g_kernel_point2_* the same for a batch of two rays
    g_sphere_err, g_cyl_err intersection_kernel_for_parametric_surfaces with sphere_function / cylinder_function
 odak.learn.raytracing.intersect_w_sphere (fixed number of optimiser steps): executed symbolically around one optimiser step
    g_ts_check              the flag as a function of the distance before (x) and after (y) the last optimiser step
@@ -61,11 +62,21 @@ def _targets(stmts):
 
 class ParametricCut:
     """The current `intersect_parametric`, executed symbolically for ONE pass of its loop.  Nothing depends on the names of
-    its locals or on how the statements are written: the prologue is run as it is (it builds the initial lists and the
-    counter), the roles are read off the data flow — the list whose element [1] is returned holds the distances, the
-    list read by the loop condition holds the errors, the integer is the counter — the loop state is replaced by
-    symbols, the surface function by a probe that records the point it is asked about and answers with the symbol
-    `e1`, and every `if ...: return value` inside the loop is recorded as an exit (condition, value)."""
+    its locals, on whether the secant state is kept in lists or in scalars, or on whether the loop is head-tested or
+    controlled by a flag computed at the end of the body:
+      * the prologue is run as it is; every numeric local the loop body assigns (a number, or each entry of a list of
+        numbers) is a SLOT of the loop state; boolean locals (a `searching` flag) keep their concrete initial value;
+      * the surface function is a probe that records the point it is asked about and answers with the symbol `e1`;
+        every `if ...: return value` inside the loop is recorded as an exit (condition, value);
+      * a first pass on anonymous symbols finds the roles by DATA FLOW (fingerprints: the expressions are evaluated on
+        random numbers): d1 = the slot the probe point is taken at, d0 = the slot that receives the old d1, counter = the
+        slot that grows by one, e0 = the remaining slot the new d1 depends on (it must receive e1), any other slot must
+        receive e1 as well; anything else fails closed.  The roles are only a NAMING: every definition emitted under
+        these names is proved against the model by the tie, so a wrong guess cannot be accepted;
+      * a second pass on the canonical symbols d0 d1 e0 e1 iter_no gives the state after the pass, the value that would be
+        returned as the distance, the condition under which the loop goes on AFTER the pass (the loop condition
+        evaluated on the new state), the exits; that the first pass always runs is the loop condition evaluated on
+        the concrete initial state."""
 
     def __init__(self):
         path, src, fn, body = _func(NUMPY, 'intersect_parametric')
@@ -82,14 +93,14 @@ class ParametricCut:
         if not self.post or not isinstance(self.post[-1], ast.Return) or any(isinstance(n, ast.Return) for st in self.post[:-1] for n in ast.walk(st)):
             raise shim.TraceError('intersect_parametric: the epilogue does not end in a single return')
         ret = self.post[-1].value
-        if not (isinstance(ret, ast.Tuple) and len(ret.elts) == 2 and isinstance(ret.elts[0], ast.Subscript) and isinstance(ret.elts[0].value, ast.Name)
-                and ast.literal_eval(ret.elts[0].slice) == 1):
-            raise shim.TraceError('intersect_parametric: the function no longer returns (<distances>[1], normal)')
-        self.dist = ret.elts[0].value.id
+        if not (isinstance(ret, ast.Tuple) and len(ret.elts) == 2):
+            raise shim.TraceError('intersect_parametric: the function no longer returns (distance, normal)')
+        self.ret_dist = ret.elts[0]
         self.params = [a.arg for a in fn.args.args]
         self.defaults = {a.arg: ast.literal_eval(d) for a, d in zip(fn.args.args[-len(fn.args.defaults):], fn.args.defaults)}
         self.guard_src = ast.get_source_segment(src, w.test)
-        self.state = _targets(w.body)
+        self.assigned = _targets(w.body)
+        self.roles = None
 
     def _exec(self, stmts, ns):
         import copy
@@ -97,15 +108,21 @@ class ParametricCut:
         ast.fix_missing_locations(mod)
         exec(compile(mod, self.path, 'exec'), ns)
 
+    def _eval(self, expr, ns):
+        import copy
+        e = ast.Expression(copy.deepcopy(expr)); ast.fix_missing_locations(e)
+        return eval(compile(e, self.path, 'eval'), ns)
+
     def namespace(self):
+        import builtins
+        sb = lambda x: x if isinstance(x, shim.B) else builtins.bool(x)
         ns = shim.base_namespace({'__and__': lambda x, y: shim.B.lift(x) & shim.B.lift(y), '__or__': lambda x, y: shim.B.lift(x) | shim.B.lift(y),
-                                  '__not__': lambda x: ~shim.B.lift(x)})
+                                  '__not__': lambda x: ~shim.B.lift(x), 'bool': sb})
         shim.load('odak/tools/vector.py', ['point_to_ray_distance'], ns)
         shim.load('odak/raytracing/ray.py', ['propagate_a_ray'], ns)
         shim.load('odak/raytracing/primitives.py', ['sphere_function', 'cylinder_function'], ns)
         called = {n.func.id for n in ast.walk(self.fn) if isinstance(n, ast.Call) and isinstance(n.func, ast.Name)}
         top = {n.name for n in ast.parse(self.src).body if isinstance(n, ast.FunctionDef)}
-        # helpers of the same module that the function (or these helpers) call
         todo, seen = sorted(called & top), set()
         tree = {n.name: n for n in ast.parse(self.src).body if isinstance(n, ast.FunctionDef)}
         while todo:
@@ -114,13 +131,13 @@ class ParametricCut:
             seen.add(f)
             todo += sorted({n.func.id for n in ast.walk(tree[f]) if isinstance(n, ast.Call) and isinstance(n.func, ast.Name)} & top)
         seen.discard('get_triangle_normal')
-        shim.load(NUMPY, sorted(seen), ns)
+        # the kernel is needed by trace() even when the function under test has it inlined
+        shim.load(NUMPY, sorted(seen | {'intersection_kernel_for_parametric_surfaces'}), ns)
         return ns
 
-    def run(self, m):
-        """one pass for a batch of m rays (m = 1: scalars as in the first iterations of the code)"""
+    # ---- the state of the loop
+    def _prologue(self, m, probe):
         ns = self.namespace()
-        probe = {}
         def surface(point, surf):
             probe['point'] = point
             return shim.wrap([shim.var('e1')]) if m == 1 else shim.sym('e1', (m,))
@@ -130,27 +147,113 @@ class ParametricCut:
             if p_ not in vals: raise shim.TraceError('intersect_parametric has an unknown parameter %s' % p_)
             ns[p_] = vals[p_]
         self._exec(self.pre, ns)
-        init = {n: ns[n] for n in self.state if n in ns}
-        lists = [n for n, v in init.items() if isinstance(v, list) and len(v) == 2 and all(isinstance(x, (int, float)) and not isinstance(x, bool) for x in v)]
-        ints = [n for n, v in init.items() if isinstance(v, int) and not isinstance(v, bool)]
-        reads = [n.id for n in ast.walk(self.loop.test) if isinstance(n, ast.Name)]
-        errs = [n for n in lists if n != self.dist and n in reads]
-        if self.dist not in lists or len(errs) != 1 or len(ints) != 1:
-            raise shim.TraceError('intersect_parametric: cannot find the distance list, the error list and the counter among %s' % sorted(init))
-        err, cnt = errs[0], ints[0]
-        self.roles = {'distances': self.dist, 'errors': err, 'counter': cnt}
-        self.init = {'distances': init[self.dist], 'errors': init[err], 'counter': init[cnt]}
-        def vec(name):
-            return shim.var(name) if m == 1 else shim.sym(name, (m,))
-        ns[self.dist] = [vec('d0'), vec('d1')]; ns[err] = [vec('e0'), vec('e1_old')]; ns[cnt] = shim.var('iter_no')
-        import copy
-        guard = eval(compile(ast.fix_missing_locations(ast.Expression(_SymBool().visit(copy.deepcopy(self.loop.test)))), self.path, 'eval'), ns)
+        return ns
+
+    @staticmethod
+    def _isnum(x):
+        return isinstance(x, (int, float)) and not isinstance(x, bool)
+
+    def _slots(self, ns):
+        """[(name, index or None, initial value)] for every numeric local the loop body assigns"""
+        out = []
+        for n in self.assigned:
+            if n not in ns: continue
+            v = ns[n]
+            if self._isnum(v): out.append((n, None, v))
+            elif isinstance(v, (list, tuple)) and v and all(self._isnum(x) for x in v):
+                if not isinstance(v, list):
+                    raise shim.TraceError('intersect_parametric: loop state %s is an immutable tuple of numbers' % n)
+                out += [(n, i, x) for i, x in enumerate(v)]
+        return out
+
+    @staticmethod
+    def _put(ns, slot, val):
+        n, i, _ = slot
+        if i is None: ns[n] = val
+        else:
+            ns[n] = list(ns[n]); ns[n][i] = val
+
+    @staticmethod
+    def _get(ns, slot):
+        n, i, _ = slot
+        v = ns[n]
+        if i is None: return v
+        if not isinstance(v, (list, tuple)) or len(v) <= i:
+            raise shim.TraceError('intersect_parametric: loop state %s changed its layout inside the loop' % n)
+        return v[i]
+
+    def _pass(self, ns):
         ns['__exits__'] = []
+        import copy
         body = [_Exits().visit(copy.deepcopy(st)) if isinstance(st, ast.If) else st for st in self.loop.body]
         if any(isinstance(n, ast.Return) for st in body for n in ast.walk(st)):
             raise shim.TraceError('intersect_parametric: a return in the loop that is not `if cond: return value`')
         self._exec(body, ns)
-        return {'guard': shim.B.lift(guard), 'dist': ns[self.dist], 'err': ns[err], 'count': ns[cnt], 'exits': ns['__exits__'], 'point': probe.get('point')}
+
+    def _discover(self):
+        """roles of the slots, by data flow (see the class comment)"""
+        import random
+        probe = {}
+        ns = self._prologue(1, probe)
+        first = self._eval(self.loop.test, ns)        # python's own short-circuit semantics on the concrete initial state
+        if isinstance(first, shim.B) or not bool(first):
+            raise shim.TraceError('intersect_parametric: the first pass of the loop is not unconditional')
+        slots = self._slots(ns)
+        if not slots:
+            raise shim.TraceError('intersect_parametric: no numeric loop state found')
+        rnd = random.Random(12345)
+        env = {'e1': rnd.uniform(2, 3), 'tol': 0.5, 'limit': 7.0}
+        for k, sl in enumerate(slots):
+            self._put(ns, sl, shim.var('c%d' % k)); env['c%d' % k] = rnd.uniform(3, 9) + k
+        for j in range(2):
+            for k3 in range(3): env['r_0_%d_%d' % (j, k3)] = 0.0
+        env['r_0_1_0'] = 1.0
+        self._pass(ns)
+        if probe.get('point') is None or getattr(probe['point'], 'shape', None) != (1, 3):
+            raise shim.TraceError('intersect_parametric: the surface function is not evaluated at one point per ray')
+        close = lambda a, b: abs(a - b) <= 1e-9 * max(1.0, abs(a), abs(b))
+        ev = lambda x: float(shim.evalf(shim.E.lift(_row(x, 0, 1)), env))
+        at = ev(probe['point'][0, 0])
+        new = [ev(self._get(ns, sl)) for sl in slots]
+        old = [env['c%d' % k] for k in range(len(slots))]
+        def only(cands, what):
+            if len(cands) != 1:
+                raise shim.TraceError('intersect_parametric: cannot identify %s in the loop state (%d candidates among %s)' % (what, len(cands), [(s[0], s[1]) for s in slots]))
+            return cands[0]
+        d1 = only([k for k in range(len(slots)) if close(old[k], at)], 'the distance at which the surface is evaluated')
+        d0 = only([k for k in range(len(slots)) if k != d1 and close(new[k], old[d1])], 'the previous distance')
+        cnt = only([k for k in range(len(slots)) if k not in (d1, d0) and close(new[k], old[k] + 1) and slots[k][2] == 0 and isinstance(slots[k][2], int)], 'the counter')
+        fv = set(shim.free_vars(shim.E.lift(_row(self._get(ns, slots[d1]), 0, 1)))) - {'e1', 'c%d' % d1, 'c%d' % d0}
+        e0 = only([k for k in range(len(slots)) if 'c%d' % k in fv], 'the previous error')
+        rest = [k for k in range(len(slots)) if k not in (d1, d0, cnt, e0)]
+        for k in [e0] + rest:
+            if not close(new[k], env['e1']):
+                raise shim.TraceError('intersect_parametric: loop state %s[%s] does not receive the new error' % (slots[k][0], slots[k][1]))
+        if len(rest) > 1:
+            raise shim.TraceError('intersect_parametric: more loop state than two distances, two errors and a counter: %s' % [(slots[k][0], slots[k][1]) for k in rest])
+        self.roles = {'d0': d0, 'd1': d1, 'e0': e0, 'iter_no': cnt}
+        if rest: self.roles['e1_old'] = rest[0]
+        self.role_names = {r: '%s%s' % (slots[k][0], '' if slots[k][1] is None else '[%d]' % slots[k][1]) for r, k in self.roles.items()}
+        self.init = {r: slots[k][2] for r, k in self.roles.items()}
+        self.first_pass_unconditional = True
+
+    def run(self, m):
+        """one pass on the canonical symbols, for a batch of m rays (m = 1: scalars as in the first passes of the code)"""
+        if self.roles is None:
+            self._discover()
+        probe = {}
+        ns = self._prologue(m, probe)
+        slots = self._slots(ns)
+        vec = lambda name: shim.var(name) if m == 1 else shim.sym(name, (m,))
+        for r, k in self.roles.items():
+            self._put(ns, slots[k], shim.var('iter_no') if r == 'iter_no' else vec(r))
+        self._pass(ns)
+        g = lambda r: self._get(ns, slots[self.roles[r]])
+        cont = self._eval(_SymBool().visit(__import__('copy').deepcopy(self.loop.test)), ns)
+        self._exec(self.post[:-1], ns)
+        ret = self._eval(self.ret_dist, ns)
+        return {'d0': g('d0'), 'd1': g('d1'), 'e0': g('e0'), 'e1': g('e1_old') if 'e1_old' in self.roles else (shim.var('e1') if m == 1 else shim.sym('e1', (m,))),
+                'count': g('iter_no'), 'continue': shim.B.lift(cont), 'ret': ret, 'exits': ns['__exits__'], 'point': probe.get('point')}
 
 
 def _row(x, i, m):
@@ -235,10 +338,11 @@ def trace():
     cut = ParametricCut()
     r = cut.run(1)
     st = ['d0', 'd1', 'e0', 'e1']
-    g.add('g_sec_d0', st, _row(r['dist'][0], 0, 1)); g.add('g_sec_next', st, _row(r['dist'][1], 0, 1))
-    g.add('g_sec_e0', st, _row(r['err'][0], 0, 1)); g.add('g_sec_e1', st, _row(r['err'][1], 0, 1))
+    g.add('g_sec_d0', st, _row(r['d0'], 0, 1)); g.add('g_sec_next', st, _row(r['d1'], 0, 1))
+    g.add('g_sec_e0', st, _row(r['e0'], 0, 1)); g.add('g_sec_e1', st, _row(r['e1'], 0, 1))
+    g.add('g_sec_ret', st, _row(r['ret'], 0, 1))                       # what would be returned as the distance after this pass
     g.add('g_sec_count', ['iter_no'], r['count'])
-    g.add('g_sec_guard', ['iter_no', 'e1_old', 'tol'], r['guard'])
+    g.add('g_sec_continue', ['iter_no', 'e1', 'tol'], r['continue'])    # the loop condition on the state AFTER the pass
     # every exit inside the loop must return (False, False); their conditions are emitted as ONE disjunction (whether the code
     # writes two `if`s or one `if a or b` is immaterial): over R it is the counter test, the NaN test being `false`
     stop = None
@@ -258,12 +362,14 @@ def trace():
     st2 = [x + '_%d' % i for x in ('d0', 'd1', 'e0', 'e1') for i in range(2)]
     R2 = shim.names('r', (2, 2, 3))
     for i in range(2):
-        g.add('g_sec2_d0_%d' % i, st2, _row(r2['dist'][0], i, 2)); g.add('g_sec2_next_%d' % i, st2, _row(r2['dist'][1], i, 2))
-        g.add('g_sec2_e0_%d' % i, st2, _row(r2['err'][0], i, 2)); g.add('g_sec2_e1_%d' % i, st2, _row(r2['err'][1], i, 2))
+        g.add('g_sec2_d0_%d' % i, st2, _row(r2['d0'], i, 2)); g.add('g_sec2_next_%d' % i, st2, _row(r2['d1'], i, 2))
+        g.add('g_sec2_e0_%d' % i, st2, _row(r2['e0'], i, 2)); g.add('g_sec2_e1_%d' % i, st2, _row(r2['e1'], i, 2))
+        g.add('g_sec2_ret_%d' % i, st2, _row(r2['ret'], i, 2))
         for k in range(3):
             g.add('g_kernel_point2_%d_%d' % (i, k), R2 + ['d1_0', 'd1_1'], r2['point'][i, k])
-    g.add('g_sec_guard2', ['iter_no', 'e1_old_0', 'e1_old_1', 'tol'], r2['guard'])
-    info = {'guard': cut.guard_src, 'roles': cut.roles, 'init': cut.init, 'defaults': cut.defaults, 'path': cut.path}
+    g.add('g_sec_continue2', ['iter_no', 'e1_0', 'e1_1', 'tol'], r2['continue'])
+    info = {'guard': cut.guard_src, 'roles': cut.role_names, 'init': cut.init, 'first_pass_unconditional': cut.first_pass_unconditional,
+            'defaults': cut.defaults, 'path': cut.path}
     # the kernels on their own: sphere and cylinder functions along a ray (one ray; two rays)
     ns = cut.namespace()
     ray = shim.sym('r', (1, 2, 3)); x = shim.var('x')
